@@ -174,29 +174,46 @@ Proof. consts. intros H. Z.div_mod_to_equations; lia. Qed.
 
 (* ------------------------------------------------------------------ division and remainder *)
 
-Lemma arith_div_inv o t a b v : (o = Div \/ o = Mod) -> arith o t a b = Some v ->
-  b <> 0 /\ ~ (signed t = true /\ a = tmin t /\ b = -1).
+(* arith Div / Mod is defined iff the divisor is non-zero and the machine division does not fault
+   (div_traps: MIN / -1 at the 32- and 64-bit signed types); the result is the wrapped truncating quotient / remainder *)
+Lemma arith_div_inv t a b v : arith Div t a b = Some v ->
+  b <> 0 /\ div_traps t a b = false /\ v = wrap t (Z.quot a b).
 Proof.
-  intros Ho H. assert (E : ((b =? 0) || (signed t && (a =? tmin t) && (b =? -1))) = false).
-  { destruct Ho; subst o; cbn in H; destruct ((b =? 0) || (signed t && (a =? tmin t) && (b =? -1))); congruence. }
-  apply orb_false_iff in E as [E1 E2]. apply Z.eqb_neq in E1. split; [exact E1|].
-  intros (Hs & Ha & Hb). subst. rewrite Hs, !Z.eqb_refl in E2. discriminate.
+  cbn [arith]. destruct ((b =? 0) || div_traps t a b) eqn:E; [discriminate|]. intros H. inversion H.
+  apply orb_false_iff in E as [E1 E2]. apply Z.eqb_neq in E1. auto.
+Qed.
+Lemma arith_mod_inv t a b v : arith Mod t a b = Some v ->
+  b <> 0 /\ div_traps t a b = false /\ v = wrap t (Z.rem a b).
+Proof.
+  cbn [arith]. destruct ((b =? 0) || div_traps t a b) eqn:E; [discriminate|]. intros H. inversion H.
+  apply orb_false_iff in E as [E1 E2]. apply Z.eqb_neq in E1. auto.
 Qed.
 
-Lemma quot_rem_range t a b : tmin t <= a <= tmax t -> tmin t <= b <= tmax t ->
-  b <> 0 -> ~ (signed t = true /\ a = tmin t /\ b = -1) ->
-  arith Div t a b = Some (Z.quot a b) /\ arith Mod t a b = Some (Z.rem a b) /\
-  tmin t <= Z.quot a b <= tmax t /\ tmin t <= Z.rem a b <= tmax t.
+Lemma full_bits32 t : subword t = false -> (32 <=? bits t) = true.
+Proof. destruct t; cbn; congruence. Qed.
+Lemma signed_sym t : signed t = true -> tmax t = - tmin t - 1.
+Proof. destruct t; cbn; intros H; try discriminate; reflexivity. Qed.
+
+(* the truncating remainder of two values of t is a value of t (also for MIN rem -1 = 0) *)
+Lemma rem_range t a b : tmin t <= a <= tmax t -> tmin t <= b <= tmax t -> b <> 0 ->
+  tmin t <= Z.rem a b <= tmax t.
 Proof.
-  intros Ha Hb Hz Hm.
-  assert (E : ((b =? 0) || (signed t && (a =? tmin t) && (b =? -1))) = false).
-  { apply orb_false_iff. split; [apply Z.eqb_neq; exact Hz|].
-    destruct (signed t) eqn:Hs; [|reflexivity]. cbn.
-    destruct (Z.eqb_spec a (tmin t)); [|reflexivity]. destruct (Z.eqb_spec b (-1)); [|reflexivity].
-    exfalso. apply Hm. auto. }
-  assert (Hd : arith Div t a b = Some (wrap t (Z.quot a b))) by (cbn; rewrite E; reflexivity).
-  assert (Hr : arith Mod t a b = Some (wrap t (Z.rem a b))) by (cbn; rewrite E; reflexivity).
-  destruct (div_mod_spec t a b _ _ Ha Hb Hd Hr) as (_ & _ & _ & Hq & Hrm).
-  pose proof (wrap_in_range t (Z.quot a b)). pose proof (wrap_in_range t (Z.rem a b)).
-  rewrite Hd, Hr, Hq, Hrm. repeat split; lia.
+  intros Ha Hb Hz. pose proof (Z.rem_bound_abs a b Hz) as Hab.
+  destruct (signed t) eqn:Hs.
+  - pose proof (signed_sym t Hs) as Hsym.
+    destruct (Z.le_ge_cases 0 a) as [Hp|Hn].
+    + pose proof (Z.rem_nonneg a b Hz Hp). lia.
+    + pose proof (Z.rem_nonpos a b Hz Hn). lia.
+  - assert (H0 : tmin t = 0) by (unfold tmin; rewrite Hs; reflexivity).
+    assert (0 <= a) by lia. pose proof (Z.rem_nonneg a b Hz H). lia.
+Qed.
+
+(* unsigned quotient stays in range *)
+Lemma quot_range_u t a b : signed t = false -> tmin t <= a <= tmax t -> tmin t <= b <= tmax t -> b <> 0 ->
+  tmin t <= Z.quot a b <= tmax t.
+Proof.
+  intros Hs Ha Hb Hz. assert (H0 : tmin t = 0) by (unfold tmin; rewrite Hs; reflexivity).
+  rewrite Z.quot_div_nonneg by lia.
+  assert (0 <= a / b) by (apply Z.div_pos; lia).
+  assert (a / b <= a) by (apply Z.div_le_upper_bound; nia). lia.
 Qed.
